@@ -586,6 +586,15 @@ theorem isFlag_flagName_short (name : Str) (h : name.head? ≠ some '-') :
     have hc : (c == '-') = false := by simpa using h
     simp [flagName, isFlag, readAt, isDash, pure, Except.pure, bind, Except.bind, hc]
 
+/-- fcppt::system: an exit status (0…255) exactly for a command that exited; a command killed by a signal gives nothing -/
+theorem systemResult_spec (status : Nat) :
+    (status % 128 = 0 → ∃ v, systemResult status = some v ∧ v < 256) ∧ (status % 128 ≠ 0 → systemResult status = none) := by
+  unfold systemResult
+  by_cases h : status % 128 = 0
+  · simp only [h, ↓reduceIte]
+    exact ⟨fun _ => ⟨_, rfl, Nat.mod_lt _ (by decide)⟩, fun h' => absurd rfl h'⟩
+  · simp [h]
+
 theorem dynamicCast_spec (dyn target : Cls) :
     (dynamicCast dyn target = some dyn ↔ dyn.isA target = true) ∧ (dynamicCast dyn target = none ↔ dyn.isA target = false) := by
   unfold dynamicCast; cases dyn.isA target <;> simp
